@@ -43,9 +43,12 @@ T_ErrorIffNoValidAssignment == Ready => ErrorIffNoValidAssignment(sig, call, Res
 T_ReservedOnlyDrops == Ready => LET py == Bind(sig, call, {}, {}) IN
   IF Range(call.kws) \cap Reserved = {} THEN py = Result
   ELSE py.k = "ok" => (Result.k = "ok" /\ Result.pos = py.pos /\ Result.kwd = py.kwd /\ Result.dflt = py.dflt)
-T_All == Ready => LET r == Result IN
+\* all four theorems with the outcome computed once (what the quick and thorough runs check)
+T_All == Ready => LET r == Result  py == Bind(sig, call, {}, {}) IN
   /\ EveryParameterBoundExactlyOnce(sig, r) /\ NoExtraNames(sig, call, Reserved, r)
   /\ ErrorIffNoValidAssignment(sig, call, Reserved, r)
+  /\ IF Range(call.kws) \cap Reserved = {} THEN py = r
+     ELSE py.k = "ok" => (r.k = "ok" /\ r.pos = py.pos /\ r.kwd = py.kwd /\ r.dflt = py.dflt)
 \* witnesses: members of the family that exercise each clause (evaluated at startup; a false ASSUME is an error)
 S1 == [po |-> <<"a">>, pk |-> <<"c", "d">>, ndef |-> 1, va |-> TRUE, ko |-> <<[name |-> "e", hasdef |-> TRUE]>>, kw |-> TRUE]
 S2 == [S1 EXCEPT !.kw = FALSE]
